@@ -486,12 +486,26 @@ def _run(mod, ctx: Ctx) -> int:
     for f in corr_fail[:5]:
         broken.append(("correspondence", f["what"], json.dumps(jsonable(f["input"]))[:300]))
 
-    # 6. failing-input search when something is broken and no confirmed spec failure yet
-    if broken and not spec_fail and hasattr(mod, "spec_check"):
+    # 6. failing-input search when something is broken and no confirmed NEW spec failure yet
+    #    (failures that a listed known finding explains do not count: they are there on the unchanged tree too)
+    _known0 = load_known(prop)
+    _matcher0 = getattr(mod, "match_finding", lambda f, k: f.get("sig") == k.get("sig"))
+
+    def _is_known(f):
+        for k in _known0:
+            try:
+                if _matcher0(f, k):
+                    return True
+            except Exception:
+                pass
+        return False
+
+    unexplained = [f for f in spec_fail if not _is_known(f)]
+    if broken and not unexplained and hasattr(mod, "spec_check"):
         log(f"[{prop}] something is broken ({len(broken)} items); running failing-input search")
         try:
             deep = mod.spec_check(ctx, ctx.budget(8, 40))
-            spec_fail = [f for f in deep["failures"] if f["kind"] == "spec"]
+            spec_fail = list(spec_fail) + [f for f in deep["failures"] if f["kind"] == "spec"]
             spec = merge_outcomes(spec, deep)
         except Exception as e:
             log(traceback.format_exc())
